@@ -92,6 +92,9 @@ def run(tier):
     for i, (name, src, mods, gl) in enumerate(progs):
         base = common.outcome_of(outs[ref][i])
         ck.evaluations += len(cfgs)
+        if name.startswith("strings/") and "CompileError" in str(base):
+            # one expression that does not compile silences the other 399 checks of its battery
+            ck.inconclusive.append("battery %s does not compile: none of its checks ran" % name)
         differing = [cfg for cfg in cfgs[1:] if common.outcome_of(outs[cfg][i]) != base]
         if differing:
             kinds = sorted(set(kind_of(outs[c][i]) for c in [ref] + differing))
